@@ -10,6 +10,41 @@ CHECKS = {
           "Generated-input search: every generated/enumerated event text is parsed by pocket and by an independent serde_json reader; in-domain texts must be accepted with equal consumed length and equal fields, any accepted valid JSON must agree, out-of-range integers must be rejected. Holds on everything explored; not a proof.",
           "Trusts serde_json as the independent parser and the harness's domain predicate (DESIGN.md 4/C01).",
           "DESIGN.md section 4 C01"),
+  "C02": ("exploration",
+          "property-based testing (proptest): round-trip and canonical-form oracle over one model built from parts and from two independent JSON renderings into dirty buffers; serde_json reads as_json output",
+          "Generated-input search over event models x rendering plans x buffer pre-fill patterns; byte-identity, ==, Hash, as_json validity and from_json(as_json(e)) == e are compared exactly.",
+          "Trusts serde_json to read as_json output; strings are valid UTF-8 by construction.",
+          "DESIGN.md section 4 C02"),
+  "C03": ("exploration",
+          "property-based testing with systematic mutators over generated valid texts (prefix, byte substitution, deletion, duplication, insertion, splice, lead-byte-before-quote), enumerated prefixes / buffer lengths / byte values, process-isolated deep nesting; robustness oracle (no panic, canaries, consumed <= len, accessor panel total); ASan libFuzzer targets in the thorough tier",
+          "Generated-input search for panics, aborts, out-of-window writes and ill-formed successes over nine parsing entry points and output buffer lengths from 0 upward, in builds with and without overflow checks.",
+          "Silent out-of-bounds reads are visible only to the ASan fuzz targets (thorough tier); hangs are reported as inconclusive by a watchdog.",
+          "DESIGN.md section 4 C03"),
+  "C06": ("exploration",
+          "property-based testing (proptest): differential against a hand-written NIP-01 predicate over small colliding pools, plus a metamorphic force-match / break-one-clause family",
+          "Generated-input search over (filter, event) pairs; event_matches must equal the reference predicate for filters built from parts and parsed from JSON.",
+          "The 20-line reference predicate in harness/src/model.rs is the specification.",
+          "DESIGN.md section 4 C06"),
+  "C07": ("exploration",
+          "property-based testing (proptest) with a differential oracle (serde_json reader vs Filter::from_json), order-permutation metamorphic relation, as_json round trip; all 52x52 letter pairs, ordered triples and integer boundary tables enumerated",
+          "Generated-input search over filter models x rendering plans x a second member order x boundary integer texts; acceptance and meaning must not depend on order, values must equal the independent reader's, out-of-range integers rejected or saturated, as_json valid and round-trips byte-identically (parsed and from-parts filters).",
+          "Trusts serde_json; must-accept domain as stated in the evidence assumptions.",
+          "DESIGN.md section 4 C07"),
+  "C08": ("exploration",
+          "property-based testing (proptest): independent canonicaliser (serde_json) + independent SHA-256 (harness, FIPS 180-4) + independent BIP-340 (secp256k1 0.29) as reference; single-field mutation family; all 128 ASCII characters enumerated",
+          "Generated-input search in three directions: sign_new output verifies and has the canonical id; harness-signed events verify (from parts and through JSON); every single-field mutation is rejected.",
+          "Trusts serde_json's string escaping as the NIP-01 canonical form and libsecp256k1 0.10 (secp256k1 0.29) as the independent verifier.",
+          "DESIGN.md section 4 C08"),
+  "C19": ("exploration",
+          "property-based testing with constructed boundary sizes: part lists on both sides of every u16 limit through eight construction paths, output buffers needed-8..needed+8 and 0; faithful-or-error oracle with canaries",
+          "Generated/enumerated search over sizes around 65,535 (tag section bytes, string length, tag count, ids/authors/kinds counts) and buffer lengths around the need; result must be an error or reproduce the parts exactly.",
+          "'Needed' is the binary size of the value.",
+          "DESIGN.md section 4 C19"),
+  "C20": ("exploration",
+          "property-based testing (proptest): algebraic laws (commutative, associative, idempotent merge; idempotent order-independent add; union = merge), hex round trip, totality of estimation over arbitrary register states, statistical envelope; single-register extremes enumerated",
+          "Generated-input search over element multisets, permutations, partitions and arbitrary 256-byte register states; laws compared exactly through the hex export.",
+          "Accuracy clause is statistical (40% envelope > 6 sigma) with elements from a seeded splitmix64 stream.",
+          "DESIGN.md section 4 C20"),
 }
 
 NOT_YET = {}
